@@ -456,11 +456,21 @@ def fibre_total_poly(a, env, svar):
         return fibre_volume_poly(a, env, svar)
     if a.kind in ("translate", "rotate"):
         return fibre_total_poly(a.kids[0], env, svar)
+    if a.kind == "bdry" and a.kids[0].kind == "circle":
+        return circle_radius_poly(a.kids[0], env, svar)            # perimeter 2 pi r, up to the factor 2 pi
     if a.kind == "cut" and a.flags.get("contained"):
         return padd(fibre_total_poly(a.kids[0], env, svar), fibre_total_poly(a.kids[1], env, svar), -1)
     if a.kind == "union" and a.flags.get("disjoint"):
         return padd(fibre_total_poly(a.kids[0], env, svar), fibre_total_poly(a.kids[1], env, svar))
     raise ValueError(a.kind)
+
+
+def circle_radius_poly(c, env, svar):
+    e0 = dict(env); e0[svar] = [Fr(0)]
+    e1 = dict(env); e1[svar] = [Fr(1)]
+    t = c.pfs[1].terms[0]
+    v0, v1 = geomgen.pt_eval(t, e0), geomgen.pt_eval(t, e1)
+    return [v0, v1 - v0]
 
 
 def fibre_cells(a, X, envf, env_row, svar="s"):
@@ -493,6 +503,10 @@ def fibre_cells(a, X, envf, env_row, svar="s"):
         tot = fibre_total_poly(a, env_row, svar)
         return (idx, [[x / (mr * ma) for x in tot] for _ in range(mr * ma)],
                 [f"annulus: normalised squared radius bin {i + 1}/{mr}, angle bin {j + 1}/{ma}" for i in range(mr) for j in range(ma)])
+    if k == "bdry" and a.kids[0].kind == "circle":
+        idx, probs, labels = nat_partition(a, X, envf)
+        vol = circle_radius_poly(a.kids[0], env_row, svar)
+        return idx, [[Fr(p).limit_denominator(100000) * x for x in vol] for p in probs], labels
     if k in PRIMS:
         idx, probs, labels = nat_partition(a, X, envf)
         vol = fibre_volume_poly(a, env_row, svar)
@@ -807,7 +821,7 @@ def make_cases(ctx):
         params, prows = pr()
         node = gen_law_node(rng, params)
         add("law", node, params, prows[:2] if ctx.quick else prows, N=NBIG,
-            api=rng.choice(["dom.n", "dom.n", "smp.n", "dom.d"]) if len(prows) <= 1 else rng.choice(["dom.n", "smp.n"]))
+            api=rng.choice(["dom.n", "dom.n", "smp.n", "smp.n2", "dom.d"]) if len(prows) <= 1 else rng.choice(["dom.n", "smp.n", "smp.n2"]))
     # 3. CSG expressions: Shapely cell measures
     for _ in range(ctx.scale(24, 240)):
         params, prows = pr()
@@ -815,7 +829,7 @@ def make_cases(ctx):
         node = gen_csg_node(rng, params, prows, rng.choice([2, 2, 3]) if ctx.quick else rng.choice([2, 3, 3, 4]))
         if node is not None:
             add("csg", node, params, prows, N=ctx.scale(60000, 120000), n_small=rng.choice([2, 3, 7, 40]),
-                api=rng.choice(["dom.n", "smp.n", "dom.d"]) if len(prows) <= 1 else rng.choice(["dom.n", "smp.n"]))
+                api=rng.choice(["dom.n", "smp.n", "smp.n2", "dom.d"]) if len(prows) <= 1 else rng.choice(["dom.n", "smp.n", "smp.n2"]))
     # 4. overlapping unions: as-coded mixture law, choice correspondence (known finding: not uniform)
     for _ in range(ctx.scale(8, 80)):
         params, prows = pr()
@@ -850,8 +864,11 @@ def make_cases(ctx):
         wrap = WRAPS[(i // 4 + i) % len(WRAPS)]
         node = gen_prod_node(rng, params, flavour, wrap=wrap)
         if node is not None:
-            add("prod", node, params, prows, N=ctx.scale(60000, 120000), dependent=flavour != "const", flavour=flavour,
-                wrap=wrap or "bare", n_small=rng.choice([5, 17, 40]))
+            hist = ["solid", "solid"]
+            if wrap is None and node.kids[0].kind == "circle":
+                hist = rng.choice([["solid", "bdry"], ["solid", "solid", "bdry"], ["bdry", "solid"]])
+            add("prod", node, params, prows, N=ctx.scale(50000, 120000), dependent=flavour != "const", flavour=flavour,
+                wrap=wrap or "bare", n_small=rng.choice([5, 17, 40]), history=hist)
     # 5b. dependent products sampled one point per call (known finding: acceptance step skipped)
     for _ in range(ctx.scale(3, 30)):
         # fibre volume varies by a factor >= 4 over the interval: disc of radius 1/4 + a s or interval of that width
@@ -867,7 +884,13 @@ def make_cases(ctx):
     # 6. LHS designs in boxes
     for _ in range(ctx.scale(80, 800)):
         params, prows = pr()
-        add("lhs", box_node(rng, params), params, prows, n=rng.choice([1, 2, 3, 5, 8, 16, 50]))
+        node = box_node(rng, params)
+        setbox = False
+        if rng.random() < 0.3:      # product of two constant intervals whose box the user sets with set_bounding_box
+            g0 = Gen(rng, params=[])
+            node = Node("prod", None, [], [g0.prim1("y"), g0.prim1("s")])
+            setbox = True
+        add("lhs", node, params, prows, n=rng.choice([1, 2, 3, 5, 8, 16, 50, 64]), calls=rng.choice([1, 2, 3]), setbox=setbox)
     # 7. Gaussian sampler on boxes
     for _ in range(ctx.scale(12, 120)):
         params, prows = pr()
@@ -911,6 +934,18 @@ def sample_big(tp, dom, node, case, api, N):
         res = common.call_with_timeout(TIMEOUT, lambda: dom.sample_random_uniform(d=N / max(vol, 1e-9), params=params))
         return [coords_of(node, res, len(res))]
     params = mk_params(tp, names, prows)
+    if api == "smp.n2":
+        # one sampler object called twice; the first result is overwritten by the caller; both samples are tested
+        smp = S.RandomUniformSampler(dom, n_points=N)
+        kk = max(k, 1)
+        for call in range(2):
+            res = common.call_with_timeout(TIMEOUT, lambda: smp.sample_points(params))
+            X = coords_of(node, res, len(res))
+            res.as_tensor.add_(1000.0)
+            if len(X) != N * kk:
+                raise RowCount(f"call {call + 1}: {len(X)} rows returned for n={N} and {k} parameter rows")
+            out += [X[i * N:(i + 1) * N] for i in range(kk)]
+        return out
     if api == "smp.n":
         res = common.call_with_timeout(TIMEOUT, lambda: S.RandomUniformSampler(dom, n_points=N).sample_points(params))
     else:
@@ -944,7 +979,7 @@ def fail_law(rep, case, what, row, verdict, finding=None, extra=None):
 
 def row_env(case, i):
     prows = prows_of(case)
-    return prows[i] if prows else {}
+    return prows[i % len(prows)] if prows else {}        # a sampler called several times yields several samples per row
 
 
 # ---------------------------------------------------------------------------------------------
@@ -1043,7 +1078,7 @@ def law_tests(rep, case, node, Xs, tag=""):
 
 
 def row_env_json(case, i):
-    return case["prows"][i] if case["prows"] else {}
+    return case["prows"][i % len(case["prows"])] if case["prows"] else {}
 
 
 def run_law(tp, rep, case):
@@ -1267,95 +1302,111 @@ def prod_partition(node, X, env_row):
 
 
 def run_prod(tp, rep, case, lines, posts):
+    """history of products built one after the other FROM THE SAME FACTOR OBJECTS (the factor itself, again the factor,
+    its boundary): every product is sampled; acceptance correspondence (small n, recording proxies, also reused) and
+    chi-square test on exact joint cells for each of them.  The returned tensors are overwritten between the steps."""
     import torch
+    from torchphysics.problem.domains.domainoperations.product import ProductDomain
     node = geomgen.from_json(case["dom"])
     a, b = node.kids
     prows = prows_of(case)
     params = mk_params(tp, case["params"], prows)
     env_row = prows[0] if prows else {}
-    # ---- acceptance correspondence (dependent products): small call with proxies
-    if case["dependent"]:
-        Proxy = build_proxy_class(tp)
-        log = []
-        from torchphysics.problem.domains.domainoperations.product import ProductDomain
-        pdom = ProductDomain(Proxy(build_tp(a, tp), log, "A"), Proxy(build_tp(b, tp), log, "B"))
-        n = case["n_small"]
-        torch.manual_seed(case["seed"])
-        with Tape() as tape:
-            res = common.call_with_timeout(TIMEOUT, lambda: pdom.sample_random_uniform(n=n, params=params))
-        s_out = res.coordinates["s"].reshape(-1)
-        bs = [e[3] for e in log if e[0] == "B" and e[1] == "rand"]
-        vols = [e[3].reshape(-1) for e in log if e[0] == "A" and e[1] == "volume"]
-        us = [t.reshape(-1) for t in tape.of("rand_like")]
-        multi = [(bb, vv) for bb, vv in zip(bs, vols) if len(vv) != 1]
-        if not vols and n > 1:
-            rep.disagree("product acceptance correspondence: the first factor depends on the second factor's variable (model: free variables "
-                         "of the expression), but the library sampled it as a constant product: no fibre volume was evaluated, no candidate "
-                         "rejected", inp_of(case), dict(volume_calls=0, b_batches=len(bs)), dict(expected="one acceptance step per batch"))
-        elif len(bs) == len(vols) and len(multi) == len(us):
-            ui = 0
-            plan = []
-            for bb, vv in zip(bs, vols):
-                if len(vv) == 1:
-                    plan.append((bb, None))
-                else:
-                    lines.append("prodaccept " + common.lst([float(x) for x in vv.tolist()], common.q) + " " +
-                                 common.lst([float(x) for x in us[ui].tolist()], common.q))
-                    plan.append((bb, (vv, us[ui])))
-                    ui += 1
+    steps = case.get("history") or ["solid"]
+    A_obj, B_obj = build_tp(a, tp), build_tp(b, tp)
+    Proxy = build_proxy_class(tp)
+    log = []
+    PA, PB = Proxy(build_tp(a, tp), log, "A"), Proxy(build_tp(b, tp), log, "B")
+    for h, step in enumerate(steps):
+        where = f"product {h + 1} of {len(steps)} built from the same factor objects ({'the factor' if step == 'solid' else 'its boundary'} x interval)"
+        fa, pfa, tagA = (A_obj, PA, "A") if step == "solid" else (A_obj.boundary, PA.boundary, "A.bdry")
+        pnode = node if step == "solid" else Node("prod", None, [], [Node("bdry", None, [], [a]), b])
+        cinp = dict(inp_of(case), history_step=h)
+        # ---- acceptance correspondence (dependent products): small call with proxies
+        if case["dependent"]:
+            del log[:]
+            pdom = ProductDomain(pfa, PB)
+            n = case["n_small"]
+            torch.manual_seed(case["seed"] + 10 * h)
+            with Tape() as tape:
+                res = common.call_with_timeout(TIMEOUT, lambda: pdom.sample_random_uniform(n=n, params=params))
+            s_out = res.coordinates["s"].reshape(-1).clone()
+            res.as_tensor.add_(1000.0)
+            bs = [e[3] for e in log if e[0] == "B" and e[1] == "rand"]
+            vols = [e[3].reshape(-1) for e in log if e[0] == tagA and e[1] == "volume"]
+            us = [t.reshape(-1) for t in tape.of("rand_like")]
+            multi = [(bb, vv) for bb, vv in zip(bs, vols) if len(vv) != 1]
+            if not vols and n > 1:
+                rep.disagree("product acceptance correspondence: the first factor depends on the second factor's variable (model: free variables "
+                             "of the expression), but the library sampled it as a constant product: no fibre volume was evaluated, no candidate "
+                             "rejected; " + where, cinp, dict(volume_calls=0, b_batches=len(bs)), dict(expected="one acceptance step per batch"))
+            elif len(bs) == len(vols) and len(multi) == len(us):
+                ui = 0
+                plan = []
+                for bb, vv in zip(bs, vols):
+                    if len(vv) == 1:
+                        plan.append((bb, None))
+                    else:
+                        lines.append("prodaccept " + common.lst([float(x) for x in vv.tolist()], common.q) + " " +
+                                     common.lst([float(x) for x in us[ui].tolist()], common.q))
+                        plan.append((bb, (vv, us[ui])))
+                        ui += 1
 
-            def post(*replies, plan=plan, s_out=s_out, n=n):
-                exp, ri = [], 0
-                for bb, acc in plan:
-                    col = bb.reshape(-1)
-                    if acc is None:
-                        exp += col.tolist()
-                        continue
-                    rl = replies[ri]; ri += 1
-                    if rl.startswith("err") or rl.startswith("bad-op"):
-                        rep.disagree("drivers/C11.lean prodaccept: model rejects", inp_of(case), None, rl)
-                        return
-                    keep = [int(t) for t in rl.split()]
-                    vv, uu = acc
-                    mx = float(vv.max())
-                    if any(abs(mx * float(uu[i]) - float(vv[i])) < 1e-6 * mx for i in range(len(vv))):
-                        rep.count("prod:near-tie(skipped)")
-                        return
-                    exp += [float(col[i]) for i in keep]
-                exp = exp[:n]
-                got = [float(x) for x in s_out.tolist()]
-                if exp != got:
-                    rep.disagree("product acceptance correspondence: a candidate b is kept iff max(vol)*u < vol_A(b) (first n kept, in order)",
-                                 inp_of(case), got[:8], exp[:8])
-                else:
-                    rep.count("prod:acceptance-agrees")
-                    rep.traces_validated += 1
-            posts.append((post, sum(1 for _, acc in plan if acc is not None)))
-        else:
-            rep.count("prod:acceptance-not-applicable")
-    # ---- law on a big sample
-    dom = build_tp(node, tp)
-    torch.manual_seed(case["seed"] + 1)
-    N = case["N"]
-    res = common.call_with_timeout(TIMEOUT, lambda: dom.sample_random_uniform(n=N, params=params))
-    X = coords_of(node, res, len(res))
-    if len(X) != N:
-        rep.fail(f"product sample_random_uniform(n={N}) returned {len(X)} rows", inp_of(case))
-        return
-    idx, probs, labels, ps = prod_partition(node, X, env_row)
-    rep.count("chi2-tests")
-    nout = int((idx < 0).sum())
-    if nout:
-        j = int(np.where(idx < 0)[0][0])
-        fail_law(rep, case, f"{nout} of {N} sampled points lie outside the product domain, e.g. {X[j].tolist()}", row_env_json(case, 0), dict(outside=nout))
-        return
-    counts = np.bincount(idx, minlength=len(probs)).tolist()
-    v = chi2_decide(counts, probs, labels)
-    if not v["ok"]:
-        w = v["worst"]
-        fail_law(rep, case, f"the product sample is not uniform: cell '{w['cell']}' received {w['observed']} of {v['N']} points, its share of the measure "
-                 f"gives {w['expected']} (chi-square {v['stat']} > {v['bound']}, df {v['df']}); marginal law of s over 4 equal parts should be {ps}",
-                 row_env_json(case, 0), v, extra=dict(counts=counts, probabilities=probs))
+                def post(*replies, plan=plan, s_out=s_out, n=n, cinp=cinp):
+                    exp, ri = [], 0
+                    for bb, acc in plan:
+                        col = bb.reshape(-1)
+                        if acc is None:
+                            exp += col.tolist()
+                            continue
+                        rl = replies[ri]; ri += 1
+                        if rl.startswith("err") or rl.startswith("bad-op"):
+                            rep.disagree("drivers/C11.lean prodaccept: model rejects", cinp, None, rl)
+                            return
+                        keep = [int(t) for t in rl.split()]
+                        vv, uu = acc
+                        mx = float(vv.max())
+                        if any(abs(mx * float(uu[i]) - float(vv[i])) < 1e-6 * mx for i in range(len(vv))):
+                            rep.count("prod:near-tie(skipped)")
+                            return
+                        exp += [float(col[i]) for i in keep]
+                    exp = exp[:n]
+                    got = [float(x) for x in s_out.tolist()]
+                    if exp != got:
+                        rep.disagree("product acceptance correspondence: a candidate b is kept iff max(vol)*u < vol_A(b) (first n kept, in order)",
+                                     cinp, got[:8], exp[:8])
+                    else:
+                        rep.count("prod:acceptance-agrees")
+                        rep.traces_validated += 1
+                posts.append((post, sum(1 for _, acc in plan if acc is not None)))
+            else:
+                rep.count("prod:acceptance-not-applicable")
+        # ---- law on a big sample
+        dom = ProductDomain(fa, B_obj)
+        torch.manual_seed(case["seed"] + 1 + 10 * h)
+        N = case["N"]
+        res = common.call_with_timeout(TIMEOUT, lambda: dom.sample_random_uniform(n=N, params=params))
+        X = coords_of(pnode, res, len(res))
+        res.as_tensor.add_(1000.0)          # the caller owns the returned tensor: overwriting it must not matter
+        if len(X) != N:
+            rep.fail(f"{where}: sample_random_uniform(n={N}) returned {len(X)} rows", cinp)
+            return
+        idx, probs, labels, ps = prod_partition(pnode, X, env_row)
+        rep.count("chi2-tests")
+        rep.count("prod-history-step:" + step + ("" if h == 0 else ":reused-factor"))
+        nout = int((idx < 0).sum())
+        if nout:
+            j = int(np.where(idx < 0)[0][0])
+            rep.fail(f"{where}: {nout} of {N} sampled points lie outside the product domain, e.g. {X[j].tolist()}", cinp,
+                     detail=dict(parameter_row=row_env_json(case, 0), outside=nout))
+            return
+        counts = np.bincount(idx, minlength=len(probs)).tolist()
+        v = chi2_decide(counts, probs, labels)
+        if not v["ok"]:
+            w = v["worst"]
+            rep.fail(f"{where}: the sample is not uniform: cell '{w['cell']}' received {w['observed']} of {v['N']} points, its share of the "
+                     f"measure gives {w['expected']} (chi-square {v['stat']} > {v['bound']}, df {v['df']}); marginal law of s over 4 equal parts "
+                     f"should be {ps}", cinp, detail=dict(parameter_row=row_env_json(case, 0), chi2=v, partition=dict(counts=counts, probabilities=probs)))
 
 
 def run_prod1(tp, rep, case):
@@ -1426,21 +1477,35 @@ def slab_check(vals, lo, hi, n):
 
 
 def run_lhs(tp, rep, case, lines, posts):
+    """ONE sampler object, called `calls` times with all parameter rows; the slab structure is checked on every call and
+    row; the returned tensor is overwritten between the calls"""
     import torch
     node = geomgen.from_json(case["dom"])
     prows = prows_of(case)
     params = mk_params(tp, case["params"], prows)
     n = case["n"]
-    dom = node.to_tp(tp)
-    torch.manual_seed(case["seed"])
-    with Tape() as tape:
-        res = common.call_with_timeout(TIMEOUT, lambda: tp.samplers.LHSSampler(dom, n_points=n).sample_points(params))
+    dom = build_tp(node, tp)
+    if case.get("setbox"):
+        dom.set_bounding_box([float(x) for lo_hi in box_bounds(node, {}) for x in lo_hi])
+    sampler = tp.samplers.LHSSampler(dom, n_points=n)
+    for call in range(case.get("calls", 1)):
+        torch.manual_seed(case["seed"] + call)
+        with Tape() as tape:
+            res = common.call_with_timeout(TIMEOUT, lambda: sampler.sample_points(params))
+        X32 = torch.cat([res.coordinates[v].reshape(len(res), -1) for v in node.vars()], dim=1).clone()
+        res.as_tensor.add_(1000.0)
+        if not _lhs_call(tp, rep, case, lines, posts, node, dom, prows, params, n, tape, X32, call):
+            return
+
+
+def _lhs_call(tp, rep, case, lines, posts, node, dom, prows, params, n, tape, X32, call):
+    import torch
     kk = max(len(prows), 1)
-    X32 = torch.cat([res.coordinates[v].reshape(len(res), -1) for v in node.vars()], dim=1)
     dim = X32.shape[1]
+    tag = f"call {call + 1} of the same sampler object: "
     if len(X32) != n * kk:
-        rep.fail(f"LHSSampler(n_points={n}) returned {len(X32)} rows for {len(prows)} parameter rows", inp_of(case))
-        return
+        rep.fail(tag + f"LHSSampler(n_points={n}) returned {len(X32)} rows for {len(prows)} parameter rows", dict(inp_of(case), call=call))
+        return False
     # the stratified draws are 1-D (`torch.rand(n_points)`), the draws of a top-up by the uniform sampler are 3-D
     rands = [t for t in tape.of("rand") if t.dim() == 1]
     perms = tape.of("randperm")
@@ -1462,11 +1527,11 @@ def run_lhs(tp, rep, case, lines, posts):
             rep.count("lhs:border-proposal-rejected(skipped)")
             continue
         if msgs:
-            rep.fail(f"LHSSampler(n_points={n}) in the box {[(float(a), float(b)) for a, b in bounds]} does not put exactly one point into each of the "
-                     f"{n} equal slabs: " + "; ".join(msgs), inp_of(case),
+            rep.fail(tag + f"LHSSampler(n_points={n}) in the box {[(float(a), float(b)) for a, b in bounds]} does not put exactly one point into each of the "
+                     f"{n} equal slabs: " + "; ".join(msgs), dict(inp_of(case), call=call),
                      detail=dict(parameter_row=row_env_json(case, i), points=rows.tolist()[:60]))
             continue
-        rep.count("lhs:one-per-slab")
+        rep.count("lhs:one-per-slab" + (":later-call" if call else ""))
         if rands is None:
             continue
         if topped:
@@ -1474,7 +1539,8 @@ def run_lhs(tp, rep, case, lines, posts):
             continue
         # column correspondence: box from the library's own float32 bounding box of the row
         ith = params[i, ] if len(prows) > 0 else tp.spaces.Points.empty()
-        bb = [float(x) for x in dom.bounding_box(ith).reshape(-1).tolist()]
+        bb = dom.bounding_box(ith)
+        bb = [float(x) for x in (bb.reshape(-1).tolist() if hasattr(bb, "reshape") else list(bb))]
         for ax in range(dim):
             us = [float(x) for x in rands[i * dim + ax].reshape(-1).tolist()]
             pm = [int(x) for x in perms[i * dim + ax].reshape(-1).tolist()]
@@ -1492,6 +1558,7 @@ def run_lhs(tp, rep, case, lines, posts):
                     rep.count("lhs:columns-agree")
                     rep.traces_validated += 1
             posts.append(post)
+    return True
 
 
 def _lhs_border_proposal(rands, perms, bounds, n):
@@ -1567,18 +1634,26 @@ def run_gauss(tp, rep, case, lines, posts):
             rep.disagree("Gaussian sampler selection: a parameter row keeps proposing after n accepted proposals", inp_of(case), len(bits), pos)
     else:
         rep.count("gauss:selection-not-applicable")
-    # ---- conditional normal law on a big sample
+    # ---- conditional normal law on big samples: ONE sampler object called twice (first result overwritten in between)
     dom = node.to_tp(tp)
-    N = case["N"]
+    N = case["N"] // 2
     torch.manual_seed(case["seed"] + 1)
-    res = common.call_with_timeout(TIMEOUT, lambda: S.GaussianSampler(dom, n_points=N, mean=mean, std=std).sample_points(params))
-    X = coords_of(node, res, len(res))
-    if len(X) != N * kk:
-        rep.fail(f"GaussianSampler(n_points={N}) returned {len(X)} rows for {len(prows)} parameter rows", inp_of(case))
-        return
+    gs = S.GaussianSampler(dom, n_points=N, mean=mean, std=std)
+    Xcalls = []
+    for call in range(2):
+        res = common.call_with_timeout(TIMEOUT, lambda: gs.sample_points(params))
+        Xc = coords_of(node, res, len(res))
+        res.as_tensor.add_(1000.0)
+        if len(Xc) != N * kk:
+            rep.fail(f"call {call + 1}: GaussianSampler(n_points={N}) returned {len(Xc)} rows for {len(prows)} parameter rows", inp_of(case))
+            return
+        Xcalls.append(Xc)
+    X = np.concatenate(Xcalls, axis=0)
+    kk_rows = kk
+    kk = 2 * kk
     m = 8 if dim == 1 else 4
     for i in range(kk):
-        env = prows[i] if prows else {}
+        env = prows[i % kk_rows] if prows else {}
         bounds = box_bounds(node, env)
         Xi = X[i * N:(i + 1) * N]
         parts, pax = [], []
@@ -1613,8 +1688,15 @@ def run_grid(tp, rep, case, lines, posts):
     params = mk_params(tp, case["params"], prows)
     n, m = case["n"], case["m"]
     dom = node.to_tp(tp)
+    first = common.call_with_timeout(TIMEOUT, lambda: dom.sample_grid(n=n, params=params))
+    first_xs = [float(x) for x in first.as_tensor.reshape(-1).tolist()]
+    first.as_tensor.add_(1000.0)                       # the caller owns the result
     res = common.call_with_timeout(TIMEOUT, lambda: dom.sample_grid(n=n, params=params))
     xs = [float(x) for x in res.as_tensor.reshape(-1).tolist()]
+    if xs != first_xs:
+        rep.fail(f"Interval.sample_grid(n={n}) is not repeatable: the second call on the same object returned {xs[:5]}, the first {first_xs[:5]}",
+                 inp_of(case))
+        return
     env = prows[0] if prows else {}
     l, u = node.pfs[0].eval(env)[0], node.pfs[1].eval(env)[0]
     if len(xs) != n:
@@ -1680,7 +1762,7 @@ def run(ctx, rep, cases=None):
     for cs in cases:
         node = geomgen.from_json(cs["dom"])
         kind = cs["kind"]
-        rep.count("kind:" + kind + (":" + cs["flavour"] if "flavour" in cs else ""))
+        rep.count("kind:" + kind + (":" + cs["flavour"] if "flavour" in cs else "") + (":set_bounding_box" if cs.get("setbox") else ""))
         if "wrap" in cs:
             rep.count("prod-first-factor:" + cs["wrap"])
         for kd in set(node.kinds()):
